@@ -457,6 +457,26 @@ func runReady(sc RScenario, ca *fakeCA, settle, deadline time.Duration) rOutcome
 	// final: wait until every consumer returned, or the deadline
 	p := waitStable(true)
 	out.Pending = p
+	// … and, where Run is about to return (the initial fetch failed, or the scenario ended Run's ctx),
+	// until it has: the consumers are released by close(readyCh), BEFORE Run's Unlock and return, so on
+	// a slow machine the snapshot could otherwise be taken between the two ("Run returned ''")
+	{
+		firstFail, seen := false, false
+		for _, op := range sc.Ops {
+			if (op.Op == "ok" || op.Op == "fail") && !seen {
+				seen, firstFail = true, op.Op == "fail"
+			}
+		}
+		mu.Lock()
+		ended, noReq := out.RunCtxEnded, out.NoRequest
+		mu.Unlock()
+		if runCalled && !noReq && ((seen && firstFail) || ended) {
+			select {
+			case <-runDone:
+			case <-time.After(deadline):
+			}
+		}
+	}
 	select {
 	case <-runDone:
 	default:
